@@ -236,8 +236,14 @@ fn quoted_local_part() -> impl Parser<char, Vec<char>, Error = Cheap<char>> {
 
 // domain          =       dot-atom / domain-literal / obs-domain
 pub(super) fn domain() -> impl Parser<char, Vec<char>, Error = Cheap<char>> {
-    // NOTE: omitting domain-literal since it may never be used
-    choice((dot_atom(), obs_domain()))
+    choice((dot_atom(), obs_domain(), domain_literal()))
+}
+
+// domain-literal  =       "[" *dtext "]"
+fn domain_literal() -> impl Parser<char, Vec<char>, Error = Cheap<char>> {
+    just('[')
+        .chain(filter(|c| matches!(u32::from(*c), 33..=90 | 94..=126)).repeated())
+        .chain(just(']'))
 }
 
 // 4.1. Miscellaneous obsolete tokens
